@@ -1,11 +1,14 @@
 #!/bin/bash
-# Runs, for every seeded change, the quick check of its own property against a patched scratch copy; prints one line per seed.
+# Runs, for every seeded change (or those given as arguments), the quick check of its own property against a patched
+# scratch copy; prints one line per seed.  Scratch output only (VF_OUT).
 cd "$(dirname "$0")/.."
-for d in seeded/*/; do
-  sid=$(basename "$d"); pid=$(/venv/bin/python -c "import json;print(json.load(open('$d/meta.json'))['property'])")
+LIST="${@:-$(ls seeded)}"
+for sid in $LIST; do
+  d=seeded/$sid
+  pid=$(/venv/bin/python -c "import json;print(json.load(open('$d/meta.json'))['property'])")
   t0=$(date +%s)
-  out=$(tools/with_patch.sh "$d/patch.diff" ./check $pid quick 2>&1); rc=$?
-  git checkout -q -- evidence/$pid.json 2>/dev/null
+  O="$(mktemp -d "${TMPDIR:-/tmp}/vfout.XXXXXX")"
+  out=$(VF_OUT="$O" tools/with_patch.sh "$d/patch.diff" ./check $pid quick 2>&1); rc=$?
+  rm -rf "$O"
   echo "$sid $pid rc=$rc $(( $(date +%s)-t0 ))s $(echo "$out" | grep -E '^detail' | head -1 | cut -c1-140)"
 done
-rm -f replays/*/V-*.json
